@@ -364,6 +364,50 @@ def baseline_snapshot(ctx, prog, rid):
     ctx.inst(rid, f.short, 'initial documents are durable when the constructor returns: create_snapshot ≺ Ok unless the backend is empty', not bad and not bad_f and bool(S), detail, witness=wit)
 
 
+def fresh_segment_names(ctx, prog, rid):
+    """C02.R11: a new log segment never lands on an existing file."""
+    from rules import C09 as _c09
+    cw = ctx.body(rid, 'WalWriter::create_with_error_handler')
+    if cw is not None and cw.calls_to('std::fs::OpenOptions::create_new', 'std::fs::File::create_new'):
+        ctx.inst(rid, cw.short, 'a new segment cannot land on an existing file', True, 'the opener refuses an existing file (create_new)')
+        return
+    n = 0
+    for c in prog.callers_of('WalWriter::create_with_error_handler', 'WalWriter::create'):
+        if not re.search(r'engine/src/hnsw_backend\.rs', c.loc) or c.body.kind == 'Promoted':
+            continue
+        n += 1
+        o = flow.Origin(c.body)
+        path = o.of_operand(c.args[0])
+        parts = _c09.name_parts(path)
+        ok = len(parts) == 1 and _c09.is_file_id(parts[0])
+        k = sum(1 for i in ctx.instances if i.get('config') == ctx.config and i['rule'] == rid and i['key'].startswith('%s | %s | segment' % (rid, c.body.short)))
+        ctx.inst(rid, c.body.short, 'segment #%d is named by an id minted for this creation (file_id())' % k, ok,
+                 '%s(%s) at %s: variable part(s) of the name: %s' % (flow.short(c.callee), flow.render(path)[-120:], c.loc, [flow.render(x)[-100:] for x in parts]))
+    ctx.floor(rid, 'segment creation sites in hnsw_backend.rs', n, 3, 'rotation, with_persistence, recover')
+    fi = ctx.body(rid, 'HnswBackend::file_id')
+    if fi is None:
+        return
+    alts = flow.top_alternatives(flow.Origin(fi).of_local(0))
+    bad = []
+    n_clock = 0
+    for a in alts:
+        calls = [flow.short(x[1]) for x in flow.calls_in(a)]
+        if any(x.endswith('SystemTime::now') for x in calls):
+            n_clock += 1
+            unit = [x for x in calls if re.search(r'Duration::(as_|subsec_)\w+$', x)]
+            if not any(re.search(r'Duration::(as_micros|as_nanos|subsec_micros|subsec_nanos)$', x) for x in unit):
+                bad.append('the clock reading is taken in %s: ids minted within one such unit coincide' % (unit or ['?']))
+        elif a[0] == 'call' and prog.resolve_local(a[1]) is not None and \
+                any(x.callee and re.search(r'Atomic.*::fetch_add$', x.callee) for x in prog.resolve_local(a[1]).calls):
+            pass   # the process-unique fallback counter
+        else:
+            bad.append('alternative %s is neither a sub-millisecond clock reading nor the fallback counter' % flow.render(a)[:120])
+    ctx.inst(rid, fi.short, 'ids keep sub-millisecond resolution (microseconds or finer), or come from the process-unique counter', not bad and n_clock >= 1,
+             ('; '.join(bad) + ' — a rotation (or a restart) inside the same unit re-opens the existing, MANIFEST-listed segment with create+append and writes a second header '
+              'after its frames: the next strict start-up refuses the segment') if bad else
+             'file_id() = %s' % ' | '.join(flow.render(a)[:110] for a in alts))
+
+
 def run(ctx, prog):
     ctx.not_decided = ['equality of recovered and live state over histories × configurations',
                        'bit-exact idempotence of normalisation (floating point)']
@@ -727,4 +771,11 @@ def run(ctx, prog):
                         'only durable copy: every Ok return of the constructor lies behind the success edge of create_snapshot, except through the edge that establishes '
                         'that the backend just built is empty (is_empty() / len() == 0) — no other condition (snapshot interval, policy, size) may bypass it')
     baseline_snapshot(ctx, prog, 'C02.R10')
+    # ------------------------------------------------------------------ R11 a new segment never takes the name of an existing file
+    ctx.rule('C02.R11', 'WalWriter::create opens with create+append and writes the 4-byte header unconditionally, so a segment created under the name of an existing file '
+                        'damages that (MANIFEST-listed) file and lists it twice; nothing checks for existence. Freshness rests on the name alone: every segment creation in '
+                        'hnsw_backend.rs names the file by an id minted for that creation by file_id(), and file_id() reads the clock in microseconds or finer (or falls back '
+                        'to the process-unique counter) — with tiny rotation thresholds consecutive rotations are well inside a millisecond, let alone a second. Decided: the '
+                        'origin and the unit; that two creations are further apart than that unit is timing and not decided')
+    fresh_segment_names(ctx, prog, 'C02.R11')
     ctx.stat('functions_analysed', len(set(i['key'].split(' | ')[1] for i in ctx.instances)))
